@@ -554,25 +554,31 @@ def r4_self_delimiting(ctx):
         raise Undecided("the list branch of obj2bytes does not join")
     for j in js:
         gen = j.args[0] if j.args else None
-        elts = []
-        if isinstance(gen, (ast.GeneratorExp, ast.ListComp)):
-            elts = [gen.elt]
-        elif isinstance(gen, ast.Name):
-            # a list built before: comprehension or loop with append
-            for st in ast.walk(lst):
-                if isinstance(st, ast.Assign) and norm(st.targets[0]) == \
-                        gen.id and isinstance(st.value, (ast.ListComp,
-                                                         ast.GeneratorExp)):
-                    elts.append(st.value.elt)
-                if isinstance(st, ast.Call) and isinstance(
-                        st.func, ast.Attribute) and st.func.attr == "append" \
-                        and norm(st.func.value) == gen.id and st.args:
-                    elts.append(st.args[0])
-        elif gen is not None:
-            elts = [gen]
-        has_len = bool(elts) and all(any(
-            isinstance(x, ast.Call) and call_name(x) == "len"
-            for x in ast.walk(e)) for e in elts)
+        # everything that flows into the joined iterable inside the list
+        # branch: the argument itself and, transitively, the values of the
+        # local names it mentions (comprehensions, appended items, zipped
+        # or chained prefix/item sequences)
+        feed = [gen] if gen is not None else []
+        seen_names = set()
+        work = list(feed)
+        while work:
+            e = work.pop()
+            for nm in ast.walk(e):
+                if isinstance(nm, ast.Name) and nm.id not in seen_names:
+                    seen_names.add(nm.id)
+                    for st in ast.walk(lst):
+                        if isinstance(st, ast.Assign) and norm(
+                                st.targets[0]) == nm.id:
+                            feed.append(st.value)
+                            work.append(st.value)
+                        if isinstance(st, ast.Call) and isinstance(
+                                st.func, ast.Attribute) and \
+                                st.func.attr in ("append", "extend") and \
+                                norm(st.func.value) == nm.id and st.args:
+                            feed.append(st.args[0])
+                            work.append(st.args[0])
+        has_len = any(isinstance(x, ast.Call) and call_name(x) == "len"
+                      for e in feed for x in ast.walk(e))
         ctx.check(has_len, j, "list items are length-prefixed",
                   "list items are concatenated without a length prefix: "
                   "different lists encode to the same bytes (e.g. "
